@@ -291,6 +291,8 @@ func runC22(c *Ctx) {
 	trailerRule(c, r5)
 	r6 := c.Rule("R6", "read-modify-write under one lock hold: every caller of writeBlockRegionPayload reads the same (file, offset) into the written buffer after acquiring the block lock (shared with C21.R5)", 2)
 	rmwRule(c, r6)
+	r7 := c.Rule("R7", "a torn block is served from its pre-image to every later reader, read-only ones included: restoreFromCow reports success only after it copied the verified backup into the caller's buffer (shared with C23.R1 / C08.R5)", 2)
+	cowRestoreRule(c, r7)
 }
 
 func runC23(c *Ctx) {
